@@ -823,7 +823,7 @@ def export_parse(vmf: VMF, opts: dict, out, src: str, hist, extra_sig: dict | No
     stats = {'xp': 0, 'parse_fail': 0, 'patched': 0}
 
     def attempt(text: str, sig: dict) -> str:
-        rec = {'k': 'xp', 'tid': tid, 'c3': {'status': 'none'}, 'patched': bool(sig['patched']), 'opts': opts, 'doc': doc, 'toks1': toks1, 'tokfail': tokfail, 'sig': sig, 'fv': fv, 'hist': hist}
+        rec = {'k': 'xp', 'tid': tid, 'c3': {'status': 'none'}, 'raw1': text if tokfail else '', 'raw2': '', 'patched': bool(sig['patched']), 'opts': opts, 'doc': doc, 'toks1': toks1, 'tokfail': tokfail, 'sig': sig, 'fv': fv, 'hist': hist}
         err = ''
         try:
             vmf2 = VMF.parse(Keyvalues.parse(text), preserve_ids=opts['preserve'])
@@ -837,17 +837,25 @@ def export_parse(vmf: VMF, opts: dict, out, src: str, hist, extra_sig: dict | No
                 toks2 = tokens(text2)
             except ValueError:
                 toks2 = []
+                rec.update(tokfail=True, raw1=text)    # compared as raw text instead (if IDs are preserved)
             rec.update(status='ok', doc2=doc2, toks2=toks2)
+            if rec['tokfail']:
+                rec['raw2'] = text2
             # third cycle: the second text re-read and exported once more must be the second text
             if not sig['patched']:
                 c3 = {'status': 'ok', 'idl2': id_lists(vmf2), 'idl3': {}, 'toks3': []}
                 try:
                     vmf3 = VMF.parse(Keyvalues.parse(text2), preserve_ids=opts['preserve'])
                     c3['idl3'] = id_lists(vmf3)
-                    c3['toks3'] = tokens(vmf3.export(inc_version=False, minimal=opts['minimal'], disp_multiblend=opts['mb']))
+                    text3 = vmf3.export(inc_version=False, minimal=opts['minimal'], disp_multiblend=opts['mb'])
                 except Exception as exc:   # noqa: BLE001
                     c3['status'] = 'error'
                     sig['err3'] = err_class(exc)
+                else:
+                    try:
+                        c3['toks3'] = tokens(text3)
+                    except ValueError:
+                        c3['status'] = 'none'      # not readable by the independent tokeniser: nothing to compare
                 rec['c3'] = c3
         sig['err'] = err
         out.write(rec)
